@@ -69,7 +69,12 @@ def oracle_owner(ops, lines):
                 fails.append((i, f"token {tok} is zero or already live", None))
             own[o] = (tok, int(t[2]))
             everissued.add(tok)
-        elif t[0] == "omove":
+        elif t[0] == "ofill":
+            live = sum(1 for v in own.values() if v)
+            want = f"ok n={65535 - live} max=65535 zero=0"
+            if a != want:
+                fails.append((i, f"filling the sandbox's token space -> {a}, expected {want} (every token 1..65535 not held by an owner, none beyond, never 0)", None))
+        elif t[0] in ("omove", "omovec"):
             d, s = int(t[1]), int(t[2])
             if d != s:
                 own[d] = own[s]; own[s] = None
@@ -158,6 +163,7 @@ def run(chk):
     # (3) owners on real sandboxes
     oblocks = []
     oops = ([f"oreg {o} {p}" for o in range(3) for p in (11, 12)] + [f"omove {d} {s}" for d in range(3) for s in range(3)] +
+            [f"omovec {d} {s}" for d in range(3) for s in range(3) if d != s] +
             [f"ounreg {o}" for o in range(3)] + [f"odestroy {o}" for o in range(3)])
     probe = [f"ostat {o}" for o in range(3)] + [f"olook {t}" for t in range(0, 6)]
     import itertools
@@ -177,6 +183,9 @@ def run(chk):
                 if rng.random() < 0.3:
                     b.append(rng.choice(probe))
             oblocks.append(b + probe)
+    # filling the token space of a real sandbox (vsbx: 2^16 bytes => tokens 1..65535) with 0..2 owners already holding tokens
+    for pre in ([], ["oreg 0 11"], ["oreg 0 11", "oreg 2 12", "ounreg 0", "oreg 1 13"]):
+        oblocks.append(["onew vsbx"] + pre + ["ofill", "ostat 0", "ostat 1"])
     out2 = core.differential_blocks(chk, oblocks, binp, oracle_owner, label="owner histories")
     chk.cov["distinct_nontrivial"] = len({tuple(b) for b in blocks}) + len({tuple(b) for b in oblocks})
     chk.cov["traces_validated_against_impl"] = len(blocks) + len(oblocks)
